@@ -78,6 +78,30 @@ class CompileError(Exception):
         if self.loc_end is None:
             self.loc_end = getattr(self.node, 'loc_end', None)
 
+        if self.loc_start is None and self.node is not None:
+            # some nodes (e.g. the inner operators of a chain like
+            # a < b < c) carry no location of their own: use the start
+            # of their first located descendant, or else of the nearest
+            # located ancestor
+            self.loc_start = self._nearest_loc(self.node)
+
+    @staticmethod
+    def _nearest_loc(node):
+        stack = [node]
+        while stack:
+            cur = stack.pop(0)
+            loc = getattr(cur, 'loc_start', None)
+            if loc is not None:
+                return loc
+            stack = list(getattr(cur, 'children', [])) + stack
+        parent = getattr(node, 'parent', None)
+        while parent is not None:
+            loc = getattr(parent, 'loc_start', None)
+            if loc is not None:
+                return loc
+            parent = getattr(parent, 'parent', None)
+        return None
+
     def __repr__(self):
         return self.msg
 
